@@ -81,6 +81,12 @@ CHECKS.update({
          "Arguments within 1e-3 of a branch cut or of zero modulus are skipped and counted; approximate nodes below the root are not asserted (error amplification).", "4/C08"),
 })
 
+CHECKS.update({
+ "C19": ("exact big-integer correct-rounding oracle for literals; exhaustive short literals + boundary literals + random digit runs; print/re-read round trip on boundary, random-bit and expression-result values (proptest)",
+         "Exploration: every digit string of length <=5 over {0,1,5,9} with the point at every position is evaluated by every evaluator; halfway cases between adjacent doubles, extreme expansions and 28-digit decimals at every scale are listed explicitly; random literals up to 400 digits; the Display text of finite results is re-evaluated and must reproduce the value.",
+         "Trusts harness/src/big.rs; no string-to-double routine is trusted (the returned double is checked against both neighbouring midpoints by cross-multiplication).", "4/C19"),
+})
+
 NOT_YET = {
 }
 
